@@ -1,3 +1,5 @@
 package main
 
-func extractMore(pkgs map[string]*Pkg) {}
+func extractMore(pkgs map[string]*Pkg) {
+	extractLabel(pkgs[mod+"/rfc1035label"])
+}
